@@ -9,6 +9,7 @@ import (
 	"bytes"
 	"go/ast"
 	"go/printer"
+	"go/token"
 	"go/types"
 	"os"
 	"path/filepath"
@@ -64,6 +65,53 @@ func instrumentPackage(P *Program, hs *harnessSet, pkgDir string) map[string]str
 			continue
 		}
 		changed := false
+		yieldStmt := func() ast.Stmt { return &ast.ExprStmt{X: &ast.CallExpr{Fun: ast.NewIdent("vxYield")}} }
+		// channel operations: a yield before the simple statement (or select) that performs one
+		astutil.Apply(file, func(c *astutil.Cursor) bool {
+			st, ok := c.Node().(ast.Stmt)
+			if !ok || c.Index() < 0 {
+				return true
+			}
+			switch x := st.(type) {
+			case *ast.SelectStmt:
+				c.InsertBefore(yieldStmt())
+				changed = true
+			case *ast.RangeStmt:
+				if t := lp.TypesInfo.TypeOf(x.X); t != nil {
+					if _, isChan := t.Underlying().(*types.Chan); isChan {
+						c.InsertBefore(yieldStmt())
+						x.Body.List = append(x.Body.List, yieldStmt())
+						changed = true
+					}
+				}
+			case *ast.SendStmt, *ast.ExprStmt, *ast.AssignStmt, *ast.ReturnStmt, *ast.DeclStmt, *ast.IncDecStmt:
+				found := false
+				ast.Inspect(st, func(n ast.Node) bool {
+					switch y := n.(type) {
+					case *ast.FuncLit:
+						return false
+					case *ast.SendStmt:
+						found = true
+					case *ast.UnaryExpr:
+						if y.Op == token.ARROW {
+							found = true
+						}
+					case *ast.CallExpr:
+						if id, ok := y.Fun.(*ast.Ident); ok && id.Name == "close" {
+							if _, isBuiltin := lp.TypesInfo.Uses[id].(*types.Builtin); isBuiltin {
+								found = true
+							}
+						}
+					}
+					return true
+				})
+				if found {
+					c.InsertBefore(yieldStmt())
+					changed = true
+				}
+			}
+			return true
+		}, nil)
 		astutil.Apply(file, nil, func(c *astutil.Cursor) bool {
 			call, ok := c.Node().(*ast.CallExpr)
 			if !ok {
